@@ -17,7 +17,7 @@ func init() {
 	props["C14"] = &propCfg{Engine: "E2", Level: "exploration", QuickRuns: 2000, ThoroughMax: 4_000_000, Race: true, Instrument: true, RealStub: e2RealStub,
 		Rule:        "one run = a Check (checks 1-3, -rapid.v on/off, optionally on a Custom generator's inner T) whose property spawns 1-4 simulated goroutines, each with 1-6 tape-chosen operations from {Helper, Name, Log, Logf, Error, Errorf, Fail, Failed, Context, Cleanup(f)} while the main goroutine does the same; every invocation of the property is one scheduled section under a tape-chosen policy (uniform / bursty / PCT d=1..3); non-trivial = at least one section with >= 2 goroutines; distinct by hash(schedule fingerprints of all sections, operation lists)",
 		SimTimeNote: "0: no clock in the scheduled sections; simulated time is not a dimension of this property"}
-	props["C16"] = &propCfg{Engine: "E3", Level: "fault_enumeration", QuickRuns: 6, ThoroughMax: 400,
+	props["C16"] = &propCfg{Engine: "E3", Level: "fault_enumeration", QuickRuns: 16, ThoroughMax: 400,
 		Rule:        "one workload = (test name, 0-200 captured output lines -> that many write calls, 0-64 element bitstream, failure kind, pre-existing directory or not) saved by a real failing Check in a single-threaded child; its baseline strace gives the ordered list of FS-affecting calls under testdata/ (mkdirat, openat O_CREAT, every write, close, renameat, unlinkat); EVERY one of them is a crash point: a fresh child is SIGKILLed by strace on entry to that call (trace-prefix equality with the baseline is required, else the run is discarded), then the directory is judged (J1 byte comparison of every *.fail file with the uninterrupted save, J2 behaviour of a fresh process); distinct non-trivial = killed children whose trace matched",
 		SimTimeNote: "0: real kernel FS and real (irrelevant) clock; the explored dimension is the crash point",
 		RealStub: map[string]string{
@@ -28,7 +28,7 @@ func init() {
 			"clock":                    "real (no deadline can be reached: shrinktime=0, runs last milliseconds)",
 			"user code":                "stub: generated property program",
 		}}
-	props["C17"] = &propCfg{Engine: "E1", Level: "exploration", QuickRuns: 2000, ThoroughMax: 4_000_000, RealStub: e1RealStub,
+	props["C17"] = &propCfg{Engine: "E1", Level: "fault_enumeration", QuickRuns: 2000, ThoroughMax: 4_000_000, RealStub: e1RealStub,
 		Rule:        "one run = faults on durable state: a valid fail file is produced by a real failing run of a variant program, then 1-4 siblings are planted: truncation at any offset, single-bit flip, garbage, empty, NULs, >64KiB line, huge/negative/non-hex numbers, missing/doubled/extra version field, foreign version, CRLF, only comments, a directory or dangling symlink named *.fail, or the intact file while the test now passes; then the target program (passing or failing) runs with the files present and, for reference, in an empty directory; in the thorough tier half of the runs enumerate every truncation offset and every single-bit flip of a fixed reference file; non-trivial = a reference file existed and the differential pair ran; distinct by hash(target program, fault kinds and arguments, seed)",
 		SimTimeNote: "sum of fake-clock advance inside synctest bubbles"}
 	props["C06"] = &propCfg{Engine: "E1", Level: "exploration", QuickRuns: 1500, ThoroughMax: 4_000_000, RealStub: e1RealStub,
